@@ -472,6 +472,24 @@ package yang
 //@   pure
 //@   safe
 //
+// findInDir (C13: a module that is not loaded is fetched from name.yang, else from
+// the name@YYYY-MM-DD.yang with the latest date, never from a file of a
+// differently named module): what is returned is nothing, the file called
+// exactly `name`, or -- in this directory -- a file whose name is the module name
+// followed by something that matches the date-suffix pattern (the one
+// package-level expression, compiled at init). Which of the dated candidates is
+// the latest is the bounded part (sort.Strings is assumed to keep the elements).
+//@ pred candidate(fn string, mname string) = hasPfx(fn, mname) && reMatches(revisionDateSuffixRegex, afterPfx(fn, mname))
+//@ func findInDir props C13 C01
+//@   only ensures loop1/ frame:H: frame:M frame:C: frame:G nil: index slice   -- the frame of the string arrays (the fresh candidate list, sorted in place) is generated but not claimed
+//@   ensures[only-the-exact-name-or-a-dated-file-of-that-module] !recurse ==> result == "" || result == pathJoin2(dir, name)
+//@            || (exists fn string :: result == pathJoin2(dir, fn) && candidate(fn, beforeSfx(name, ".yang")))
+//@   modifies nothing
+//@   safe
+//@   loop 1
+//@     invariant forall i int :: 0 <= i && i < len(revisions) ==> candidate(revisions[i], mname)
+//@     invariant arr(revisions) == 0 || loopfresh(revisions)
+//
 // FindModule: an import or include with a revision-date denotes exactly that
 // revision when it is loaded, else the bare name; nothing is read or changed
 // when the set already holds the answer.
